@@ -15,9 +15,11 @@
      9  a number inside the skipLastN region is requested
      10 missingSeqNumbers panicked (index out of range on the caller's buffer)
      11 as 7, but the 16-bit number is an alias (65536 apart) of a number NACKed earlier
-        whose counter was never pruned (counters are keyed by the 16-bit number)
+        whose counter was never pruned (counters are keyed by the 16-bit number): no tick in
+        between found nothing missing, and no tick in between sent a packet while the 16-bit
+        number was absent from the missing set (see hist_after)
      12 receiveLog.get answers differently from the recount (received and within the window) *)
-From IV Require Import Base.Word Model.ReceiveLog Model.NackGen Model.NackSend Spec.NackSpec Spec.NackGenSpec.
+From IV Require Import Base.Word Model.ReceiveLog Model.NackGen Model.NackSend Model.NackOpts Spec.NackSpec Spec.NackGenSpec Spec.NackOptsSpec.
 From Coq Require Import MSets.MSetPositive.
 
 (* ---------- core stream: case = (size, ops, outs); op (0,seq)=add, (1,skip)=missingSeqNumbers,
@@ -171,7 +173,12 @@ Proof.
 Qed.
 
 (* ---------- API stream ----------
-   case = ((size, skip, max), ops, outs); op (k, a, b, c):
+   case = (options, ops, outs); options = the GeneratorOption list in the order it was passed to
+   NewGeneratorInterceptor: (0, v) GeneratorSize v, (1, v) GeneratorSkipLastN v,
+   (2, v) GeneratorMaxNacksPerPacket v.  The model applies them one after the other
+   (Model/NackOpts.v, new_cfg); the specification oracles use the configured values
+   (Spec/NackOptsSpec.v, configured: the last option of each kind, else the default), i.e. they
+   do not depend on the order.  op (k, a, b, c):
      k=0 reader of ssrc a delivers seq b      k=1 reader of ssrc a returns an error (seq b not recorded)
      k=2 tick against the RTCP writer plan (a, b) of Model/NackSend.v, plan_writer: a=0 no Write
          fails, a=1 the b-th Write call of the tick fails, a=2 every Write fails, a=3 a Write
@@ -185,7 +192,13 @@ Qed.
    The model runs the send phase (Model/NackSend.v, wstep) against the case's writer plan; the two
    specification oracles (api_spec_code below, Check/C03StreamCheck.v) do not look at the plan:
    the property asks for the same requests whatever the writer returns. *)
-Definition api_case := ((Z * Z * Z) * list (Z * Z * Z * Z) * list (list (Z * list (Z * Z))))%type.
+Definition api_case3 := ((Z * Z * Z) * list (Z * Z * Z * Z) * list (list (Z * list (Z * Z))))%type.
+Definition api_case := (list (Z * Z) * list (Z * Z * Z * Z) * list (list (Z * list (Z * Z))))%type.
+
+(* the case as the specification reads it: configured values instead of the option list *)
+Definition conf3 (c : api_case) : api_case3 :=
+  let '(opts, ops, outs) := c in
+  ((configured 0 512 opts, configured 1 0 opts, configured 2 0 opts), ops, outs).
 
 Definition expand_outs (outs : list (list (Z * list (Z * Z)))) : list (list (Z * list Z)) :=
   map (map (fun kq => (fst kq, expand_runs (snd kq)))) outs.
@@ -217,8 +230,8 @@ Definition pair_eqb (a b : Z * list Z) : bool := (fst a =? fst b) && list_eqb Z.
 Definition outs_eqb (a b : list tick_out) : bool := list_eqb (list_eqb pair_eqb) a b.
 
 Definition api_model_ok (c : api_case) : bool :=
-  let '((sz, skip, mx), ops, outs) := c in
-  outs_eqb (api_run (mk_cfg sz skip mx) gen_init ops) (expand_outs outs).
+  let '(opts, ops, outs) := c in
+  outs_eqb (api_run (new_cfg opts) gen_init ops) (expand_outs outs).
 
 Definition api_mismatches (cases : list api_case) : list nat :=
   find_idx (fun c => negb (api_model_ok c)) cases 0.
@@ -243,29 +256,48 @@ Definition adel {A} (l : list (Z * A)) (k : Z) : list (Z * A) := filter (fun kv 
 Definition rget (r : list (Z * Z)) (u : Z) : Z := match aget r u with Some v => v | None => 0 end.
 
 (* one stream at one tick: q = what the implementation requested (list, [] if no packet).
-   Returns (code, updated request counts, numbers requested now).  The counts are kept only for
-   numbers that are still missing (a number that left the missing set never returns to it);
-   everything ever requested goes to the history list used to recognise code 11. *)
+   Returns (code, updated request counts, updated history list).  The counts are kept only for
+   numbers that are still missing (a number that left the missing set never returns to it).
+   The history list o_hist is used only to recognise code 11 (the known finding: the counters
+   are keyed by the 16-bit number).  It holds the requested numbers whose 16-bit key can still
+   carry a count by that design and no other: a tick that finds nothing missing forgets all of
+   them; a tick that sends a packet forgets those whose 16-bit number is not among the missing
+   ones; a tick that sends nothing because every missing number is at its limit forgets none.
+   A missing number that is not requested although every earlier request of its 16-bit aliases
+   has been forgotten in this sense is an ordinary failure (code 7), not the known one. *)
+Definition hist_after (mu q now hist : list Z) : list Z :=
+  match mu with
+  | [] => []
+  | _ :: _ =>
+      match q with
+      | [] => hist
+      | _ :: _ => let m16 := map u16 mu in now ++ filter (fun h => memz (u16 h) m16) hist
+      end
+  end.
+
 Definition stream_tick_code (sz skip mx : Z) (o : ost) (q : list Z) : nat * list (Z * Z) * list Z :=
   let mu := match o_s o with Some s => spec_missing_u sz skip s | None => [] end in
   let eu := if mx >? 0 then filter (fun u => rget (o_req o) u <? mx) mu else mu in
   let e := map u16 eu in
   if list_eqb Z.eqb e q then
-    (0%nat, (if mx >? 0 then map (fun u => (u, rget (o_req o) u + (if rget (o_req o) u <? mx then 1 else 0))) mu else []), eu)
+    (0%nat, (if mx >? 0 then map (fun u => (u, rget (o_req o) u + (if rget (o_req o) u <? mx then 1 else 0))) mu else []),
+     hist_after mu q eu (o_hist o))
   else
     let code :=
-      match filter (fun x => negb (memz x e)) q with
+      let se := pset_of e in
+      match filter (fun x => negb (PositiveSet.mem (pkey x) se)) q with
       | x :: _ =>
           if memz x (map u16 mu) then 6%nat      (* missing, but already requested mx times *)
           else classify_extra sz skip (o_s o) x
       | [] =>
-          match filter (fun u => negb (memz (u16 u) q)) eu with
+          let sq := pset_of q in
+          match filter (fun u => negb (PositiveSet.mem (pkey (u16 u)) sq)) eu with
           | u :: _ => if mx >? 0 then (if existsb (fun h => negb (h =? u) && ((h - u) mod 65536 =? 0)) (o_hist o)
                                        then 11%nat else 7%nat) else 4%nat
           | [] => 5%nat
           end
       end in
-    (code, o_req o, []).
+    (code, o_req o, o_hist o).
 
 Fixpoint sorted_keys (l : list (Z * list Z)) : bool :=
   match l with
@@ -281,9 +313,9 @@ Fixpoint tick_code (sz skip mx : Z) (st : list (Z * ost)) (out : tick_out) : nat
   | [] => (0%nat, [])
   | (k, o) :: tl =>
       let q := match aget out k with Some q => q | None => [] end in
-      let '(c1, r', now) := stream_tick_code sz skip mx o q in
+      let '(c1, r', hist') := stream_tick_code sz skip mx o q in
       let '(c2, tl') := tick_code sz skip mx tl out in
-      ((match c1 with O => c2 | _ => c1 end), (k, mk_ost (o_s o) r' (now ++ o_hist o)) :: tl')
+      ((match c1 with O => c2 | _ => c1 end), (k, mk_ost (o_s o) r' hist') :: tl')
   end.
 
 Fixpoint api_spec_code (sz skip mx : Z) (st : list (Z * ost)) (ops : list (Z * Z * Z * Z))
@@ -328,6 +360,6 @@ Fixpoint api_spec_code (sz skip mx : Z) (st : list (Z * ost)) (ops : list (Z * Z
   end.
 
 Definition api_case_code (c : api_case) : nat :=
-  let '((sz, skip, mx), ops, outs) := c in api_spec_code sz skip mx [] ops (expand_outs outs).
+  let '((sz, skip, mx), ops, outs) := conf3 c in api_spec_code sz skip mx [] ops (expand_outs outs).
 
 Definition api_spec_failures (cases : list api_case) : list (Z * Z) := codes api_case_code cases 0.
